@@ -10,6 +10,17 @@ CHECKS = {
     technique='property-based testing (Hypothesis) + bounded exhaustive enumeration against a validity predicate'),
 }
 
+CHECKS.update({
+ 'C03': dict(level='exploration', design='3/C03',
+    text='Generated tag configurations x request histories on a fresh in-process simulator; every reply and, after every step, every Attribute value is compared with an independent typed-array model; requests/replies go through an independent reference codec. Exploration of the generated histories only.',
+    note='Trusted: CPython, Hypothesis, vp/refcodec.py and vp/model.py (independent of cpppo). The in-process driver repeats the three steps of enip_srv_tcp; TCP transport itself is exercised by C02/C06/C12/C14.',
+    technique='property-based testing of request histories against a reference model (Hypothesis)'),
+ 'C05': dict(level='exploration', design='3/C05',
+    text='Same machine as C03 with a boundary/invalid/cross-type biased generator: status table of the statement, all-tags before==after for refused requests, model equality after every step and a closing sweep that reads every tag on both sessions. Exploration only.',
+    note='Trusted as C03. Where the statement admits two behaviours (cross-type writes) the judge accepts either; unspecified requests (zero counts, unaligned offsets) may get any reply but may not change a tag.',
+    technique='property-based testing of request histories against a reference model (Hypothesis), boundary-biased generators'),
+})
+
 PENDING = {}
 
 def main():
